@@ -126,6 +126,10 @@ CHECKS = {
                 jobs=lambda t: J("eqenum", "prod-hsw", []) + J("eqenum", "asan-hsw", []),
                 budget=dict(quick=150, thorough=3000),
                 rule="all ordered pairs of a value set x all 25 pairs of realisations through different histories and allocators: operator== agrees with reference JSON value equality (objects order-insensitive, number kinds and bit patterns distinguished), != is its negation, symmetric, reflexive; transitivity on all triples of a subset. Evaluations count (pair, realisation pair) comparisons."),
+    "C06": dict(level="exploration", engine="serenum",
+                jobs=lambda t: J("serenum", "prod-hsw", []) + J("serenum", "asan-hsw", []) + J("domexplore", "prod-hsw", ["--only", "M_pool_nestedmap"], label="prod-hsw/domexplore-states") + (J("serenum", "prod-wsm", []) if t == "thorough" else []),
+                budget=dict(quick=150, thorough=3000),
+                rule="documents parsed from every accepted text of the families, API-built strings of every byte value/length/position, boundary integers and doubles, and non-finite doubles at every position, each serialised into 17 write-buffer start states (fresh, reused, reused after larger/smaller output, WriteBuffer(c) for 12 small capacities; exact-size reallocs under ASan): Serialize succeeds, all states give identical bytes, the output is accepted by the independent reference recogniser and denotes the same value with the same number kinds, Parse(output) is == the original, re-serialising gives identical bytes, ToString is NUL-terminated; non-finite -> kSerErrorInfinity and Dump()==''. Every state reached by the mutation-API BFS is round-tripped too (second job)."),
 }
 
 
